@@ -209,6 +209,17 @@ func FamilyScenario(family string, seed int64, i, blocks, maxTx int) *Scenario {
 	if family == "olvm" {
 		gs = OlvmGenesis()
 	}
+	if family == "gov" && i%4 == 3 {
+		// a pass percentage of 67 with powers 5, 4 and (staked in the story) 3: one dissenter holds exactly a third
+		gs.Proposal.PassPct = 67
+	}
+	if family == "ethstory" { // guided tracker histories on the three witness genesis documents in turn
+		gs = []GenesisSpec{EthGenesis(), Erc20Genesis(), EthGenesis5()}[i%3]
+	}
+	if family == "olvmfork" { // the fork that switches the EVM on lies inside the history
+		gs = OlvmGenesis()
+		gs.Fork = int64(4 + i%4)
+	}
 	// "<family>@gas": the same workload on a chain whose genesis limits the gas of a block (consensus parameter
 	// block.max_gas); the limit differs per history so that blocks end below, near and above it
 	if strings.HasSuffix(family, "@gas") {
